@@ -181,6 +181,19 @@ def check_case(case, ctx):
             want = refmodel.path_length_inside(ring, path) if ring is not None else 0.0
             pieces = by_cell.get(n, [])
             got = sum(p.length for p in pieces)
+            if abs(got - want) > tol and ring is not None and not refmodel.path_runs_exactly_along(ring, path):
+                # The path hugs an edge of this cell only up to rounding (a vertex computed as a
+                # non-dyadic fraction lands 1e-16 beside the edge): whether that leg counts as
+                # inside is then decided by the last bit, in exact arithmetic as much as in GEOS.
+                # Any length between "inside the cell shrunk by a hair" and "inside the cell
+                # grown by a hair" is defensible.  (A path lying EXACTLY on an edge is not in
+                # this class and stays under the strict comparison.)
+                lo, hi = refmodel.path_length_band(ring, path, 1e-7 * max(path_length, 1.0))
+                if lo - tol <= got <= hi + tol and hi - lo > tol:
+                    ctx.label("edge_hugging_up_to_rounding:band_accepted")
+                    if pieces:
+                        crossed += 1
+                    continue
             ctx.check(abs(got - want) <= tol, "C18.lengths_add_up",
                       lambda: f"{what}: segments of cell {n} have total length {got}; the path runs "
                       f"{want} inside that cell (corners {ring})")
